@@ -176,6 +176,21 @@ func vpGenericPost(r *raft, pre vpRec, m *pb.Message) {
 			v, ok := pre.votes[id]
 			return vpOr(vpAnd(ok, v), vpAnd(!ok, id == from, !m.GetReject()))
 		}), "E3/vote-quorum")
+		// C04-N1: the new leader keeps its log and appends exactly one empty entry of its term
+		vpAssert(vpAnd(post.view.last == pre.view.last+1, post.view.first == pre.view.first), "N1/new-leader-appends-one-entry")
+		ne := post.view.slotAt(pre.view.last + 1)
+		vpAssert(vpAnd(ne.term == post.term, ne.typ == 0, ne.dlen == 0), "N1/new-leader-entry-is-empty-own-term")
+		vpAssert(vpImplies(pre.view.has(j), vpAnd(post.view.has(j), vpSlotEq(pre.view.slotAt(j), post.view.slotAt(j)))), "N1/new-leader-keeps-its-log")
+		nself := 0
+		for _, x := range r.msgsAfterAppend[pre.nafter:] {
+			if x.GetTo() == r.id && x.GetType() == pb.MsgAppResp {
+				nself++
+				vpAssert(x.GetIndex() == post.view.last, "N1/self-ack-queued-behind-persistence")
+			}
+		}
+		vpAssert(nself == 1, "N1/self-ack-queued-behind-persistence")
+		// C10-G2: configuration changes are held back until the whole old log is applied
+		vpAssert(r.pendingConfIndex == pre.view.last, "G2/new-leader-pending-conf-index")
 	}
 	// C06-Q1 leader commit advance
 	if post.state == StateLeader && pre.state == StateLeader {
@@ -304,6 +319,20 @@ func vpSizeCell(typ pb.MessageType, lu int) {
 	vpStepCell(StateLeader, o, mo)
 }
 
+// the two largest leader cells, split by sender: the symbolic peer, the leader itself
+func vpH_step_L_MsgAppResp_from2()       { vpFromOnly = 2; vpCell(StateLeader, pb.MsgAppResp, 0) }
+func vpH_step_L_MsgAppResp_from1()       { vpFromOnly = 1; vpCell(StateLeader, pb.MsgAppResp, 0) }
+func vpH_step_L_MsgHeartbeatResp_from2() { vpFromOnly = 2; vpCell(StateLeader, pb.MsgHeartbeatResp, 0) }
+
+// lean variant of the peer-acknowledgement cell for the quick tier: no stable
+// entries, one unstable entry
+func vpH_step_L_MsgAppResp_from2_lean() {
+	vpFromOnly = 2
+	o := vpDefaultOpts(StateLeader)
+	o.ls, o.lu = 0, 1
+	vpStepCell(StateLeader, o, vpMsgOpts{typ: pb.MsgAppResp})
+}
+
 func vpH_size_L_MsgHeartbeatResp() { vpSizeCell(pb.MsgHeartbeatResp, 2) }
 func vpH_size_L_MsgProp()          { vpSizeCell(pb.MsgProp, 1) }
 func vpH_size_L_MsgAppResp()       { vpSizeCell(pb.MsgAppResp, 2) }
@@ -322,7 +351,10 @@ func vpValidity(r *raft, m *pb.Message, k *vpConds) {
 		k.add(vpImplies(from == r.id, vpAnd(!m.GetReject(), m.GetIndex() <= v.last, m.GetTerm() == r.Term)))
 	case pb.MsgVoteResp, pb.MsgPreVoteResp:
 		k.add(vpImplies(from == r.id, !m.GetReject()))
-	case pb.MsgHup, pb.MsgBeat, pb.MsgCheckQuorum, pb.MsgProp, pb.MsgReadIndex, pb.MsgStorageAppendResp, pb.MsgStorageApplyResp, pb.MsgUnreachable, pb.MsgSnapStatus, pb.MsgTransferLeader, pb.MsgForgetLeader:
+	case pb.MsgUnreachable, pb.MsgSnapStatus:
+		// the application reports about its peers, not about the node itself
+		k.add(from != r.id)
+	case pb.MsgHup, pb.MsgBeat, pb.MsgCheckQuorum, pb.MsgProp, pb.MsgReadIndex, pb.MsgStorageAppendResp, pb.MsgStorageApplyResp, pb.MsgTransferLeader, pb.MsgForgetLeader:
 	default:
 		k.add(from != r.id)
 	}
@@ -335,6 +367,14 @@ func vpValidity(r *raft, m *pb.Message, k *vpConds) {
 	case pb.MsgStorageAppendResp:
 	default:
 		k.add(m.GetTerm() == 0)
+	}
+	// V-prop / V-read: local requests are built by RawNode with one entry (Propose,
+	// ReadIndex) or at least one (ProposeConfChange batches are not produced by this library)
+	switch m.GetType() {
+	case pb.MsgProp:
+		k.add(len(m.GetEntries()) >= 1)
+	case pb.MsgReadIndex:
+		k.add(len(m.GetEntries()) == 1)
 	}
 	switch m.GetType() {
 	case pb.MsgApp:
@@ -369,12 +409,19 @@ func vpValidity(r *raft, m *pb.Message, k *vpConds) {
 	}
 }
 
+// vpFromOnly, when non-zero, restricts the sender id of the stepped message
+// (used to split the largest leader cells by sender).
+var vpFromOnly uint64
+
 func vpStepCell(role StateType, o vpOpts, mo vpMsgOpts) {
 	nd := vpBuild(o)
 	r := nd.r
 	k := &vpConds{}
 	m := vpMessage(mo, k)
 	vpValidity(r, m, k)
+	if vpFromOnly != 0 {
+		k.add(m.GetFrom() == vpFromOnly)
+	}
 	k.assume()
 	pre := vpRecord(r)
 	p2 := vpRecord2(r)
